@@ -254,6 +254,8 @@ func depVariants() []Variant {
 		dep("a | b (<< 2.0~rc1) [amd64 linux-any], ${misc:Depends}"),
 		dep("debhelper (>= 9),", "libfoo-dev [!amd64 !i386] <!nocheck>,", "c:any"),
 		dep("single"),
+		// version numbers that are substitution variables, as debian/control of every library package has them
+		dep("libfoo1 (= ${binary:Version}), libbar-dev (>= ${source:Version}), ${shlibs:Depends}"),
 	}
 }
 
@@ -262,7 +264,9 @@ func dscFields() []FSpec {
 		{"Format", "Format", "scalar", []Variant{scalar("3.0 (quilt)"), scalar("1.0")}},
 		{"Source", "Source", "scalar", []Variant{scalar("hello")}},
 		{"Binary", "Binaries", "list", []Variant{list([]string{"hello", "hello-doc", "libhello1"}, "hello, hello-doc, libhello1"), list([]string{"hello"}, "hello"),
-			list([]string{"hello", "hello-doc", "libhello1"}, "hello, hello-doc,", "libhello1"), list([]string{"hello", "hello-doc"}, "hello,", "hello-doc")}},
+			list([]string{"hello", "hello-doc", "libhello1"}, "hello, hello-doc,", "libhello1"), list([]string{"hello", "hello-doc"}, "hello,", "hello-doc"),
+			// blanks before the separator, and the comma-first fold
+			list([]string{"hello", "hello-doc", "libhello1"}, "hello , hello-doc ,libhello1"), list([]string{"hello", "hello-doc", "libhello1"}, "hello", ", hello-doc", ", libhello1")}},
 		{"Architecture", "Architectures", "archlist", []Variant{archs("any", "all"), archs("any"), archs("all"), archs("linux-any"), archs("amd64", "i386"), archs("kfreebsd-amd64", "hurd-i386"), archs("amd64", "i386", "any"), archs("linux-any", "kfreebsd-any", "all")}},
 		{"Version", "Version", "version", []Variant{ver("2.10-1"), ver("1:2.10~rc1-1+b2"), ver("2.10")}},
 		{"Origin", "Origin", "scalar", []Variant{scalar("debian")}},
@@ -272,6 +276,8 @@ func dscFields() []FSpec {
 			list([]string{"Jane Roe <jane@example.org>", "John Doe <jd@example.org>", "A B <c@d>"}, "Jane Roe <jane@example.org>,", "John Doe <jd@example.org>,", "A B <c@d>"),
 			list([]string{"Jane Roe <jane@example.org>", "Santiago Vila <sanvila@debian.org>", "Jane Roe <jane@example.org>"}, "Jane Roe <jane@example.org>, Santiago Vila <sanvila@debian.org>, Jane Roe <jane@example.org>"),
 			upl(5), upl(9), upl(17),
+			list([]string{"Jane Roe <jane@example.org>", "John Doe <jd@example.org>"}, "Jane Roe <jane@example.org> , John Doe <jd@example.org>"),
+			list([]string{"Jane Roe <jane@example.org>", "John Doe <jd@example.org>", "A B <c@d>"}, "Jane Roe <jane@example.org>", ", John Doe <jd@example.org>", "\t, A B <c@d>"),
 			// names that begin or end with a character whose code point has a blank, newline or carriage return as its low byte
 			list([]string{"\u0120or\u0121 Borg <g@example.org>", "\u010aensu Tabone <c@example.org>", "Ren\u00e9 \u010d", "Dagger \u2020"}, "\u0120or\u0121 Borg <g@example.org>, \u010aensu Tabone <c@example.org>,", "Ren\u00e9 \u010d, Dagger \u2020")}},
 		{"Homepage", "Homepage", "scalar", []Variant{scalar("https://www.gnu.org/software/hello/")}},
